@@ -308,6 +308,14 @@ func replayMain(args []string) int {
 	return 0
 }
 
+// stillPresent: the replay in a fresh process shows the same violation (class and signature) although
+// its trace hash differs from the recorded one: something the run depends on is outside the simulator
+// (e.g. a file name built from a descriptor number). The violation is real and repeatable, so it is
+// reported; the replay output says that the schedule diverged.
+func stillPresent(rcode int, rout, sig string) bool {
+	return rcode == 3 && strings.Contains(rout, "violation still present") && strings.Contains(rout, "sig="+sig+")")
+}
+
 // ------------------------------------------------------------------ minimise
 
 // wantSig, when set, makes minimisation preserve the exact signature, not only the class.
@@ -694,7 +702,7 @@ func parentRun(args []string) int {
 		reported := false
 		if mcode == 0 {
 			rout, rcode := runChild(5*time.Minute, "replay", minp)
-			if rcode == 1 {
+			if rcode == 1 || stillPresent(rcode, rout, firstV.Sig) {
 				replayPath = minp
 				reported = true
 				fmt.Print(rout)
@@ -705,7 +713,7 @@ func parentRun(args []string) int {
 		}
 		if !reported {
 			rout, rcode := runChild(5*time.Minute, "replay", orig)
-			if rcode == 1 {
+			if rcode == 1 || stillPresent(rcode, rout, firstV.Sig) {
 				replayPath = orig
 				reported = true
 				fmt.Print(rout)
